@@ -161,7 +161,7 @@ def chain_cases(chk, count, how1s, how2s):
 			"key2": rng.choice(["id", "cust"]), "key_mode2": rng.choice(["name", "vector"])}, "chain")
 
 
-RUNNERS = {"join": run_join, "exhaustive": c09.run_exhaustive, "history": run_history, "relations": run_relations, "unmatched_order": run_unmatched_order, "chain": run_chain}
+RUNNERS = {"self_join": c09.run_self_join, "derived_right": c09.run_derived_right, "join": run_join, "exhaustive": c09.run_exhaustive, "history": run_history, "relations": run_relations, "unmatched_order": run_unmatched_order, "chain": run_chain}
 RUNNERS["recompute"] = recompute.runner("C10")
 
 
@@ -181,6 +181,7 @@ def run(chk):
 			spec = common.gen_join_spec(rng, max_rows=rng.choice([4, 8, 12]) if chk.quick() else rng.choice([4, 8, 12, 40, 200]), how=how)
 			chk.case("join", spec, "sampled")
 		c09.ratio_cases(chk, how, 40 if chk.quick() else 300)
+		c09.extra_cases(chk, how, 120 if chk.quick() else 800)
 		for _ in range(100 if chk.quick() else 500):
 			spec = c09.gen_history(rng, how)
 			spec["how"] = how
